@@ -29,7 +29,8 @@ func RetrieveSupportedCipherSuites(ctx context.Context, s *V2SessionlessTranspor
 			return nil, err
 		}
 		cipherSuiteRecordData.Write(getChannelCipherSuitesCmd.Rsp.CipherSuiteRecordsChunk)
-		if getChannelCipherSuitesCmd.Req.ListIndex == 64 ||
+		// the list index is a 6-bit field: 63 is the last chunk that can be asked for
+		if getChannelCipherSuitesCmd.Req.ListIndex == 63 ||
 			len(getChannelCipherSuitesCmd.Rsp.CipherSuiteRecordsChunk) < 16 {
 			break
 		}
